@@ -42,7 +42,8 @@ def main():
     for pid in ids:
         e = dict(os.environ, LLVM_PROFILE_FILE=os.path.join(prof, pid + "-%p.profraw"))
         out = os.path.join(LOGS, "cov.%s.json" % pid)
-        r = subprocess.run([binary, "run", pid, "--tier", tier, "--seed", os.environ.get("VERIF_SEED", "1"), "--out", out], cwd=VERIF, env=e, stdout=subprocess.PIPE, stderr=subprocess.STDOUT, text=True)
+        sub = "digest" if pid == "C17" else "run"  # C17's workload is the two-profile digest
+        r = subprocess.run([binary, sub, pid, "--tier", tier, "--seed", os.environ.get("VERIF_SEED", "1"), "--out", out], cwd=VERIF, env=e, stdout=subprocess.PIPE, stderr=subprocess.STDOUT, text=True)
         print(pid, "exit", r.returncode, flush=True)
     merged = os.path.join(TARGET, "all.profdata")
     raws = [os.path.join(prof, f) for f in os.listdir(prof)]
